@@ -206,6 +206,8 @@ func runC06(c *fw.Ctx) {
 	// ---- one index slice object used for two calls on tensors of different extents ----
 	for i := 0; i < c.Pick(2000, 20000); i++ {
 		c.Case(func(k *fw.K) { c06IndexReuse(k) })
+		c.Case(func(k *fw.K) { c06Siblings(k) })
+		c.Case(func(k *fw.K) { c06FirstReader(k) })
 	}
 	// tensors that took part in REJECTED calls are used again
 	for i := 0; i < c.Pick(2000, 20000); i++ {
@@ -658,6 +660,163 @@ func c06Concat(k *fw.K, base []int, dim, nops int) {
 
 // c06IndexReuse: the caller keeps ONE []Range (with {0,0} and omitted entries) and uses it for Slice / Patch on a
 // second tensor of different extents: each call must be answered from the index as the caller wrote it.
+// c06Siblings: results that share an operand. P = Concat(a, b); y1 = Concat(P, c); y2 = Concat(P, d) (and the same with Patch and
+// Slice in between): every result is read only after ALL of them were built - a later sibling must not rewrite an earlier one, nor P.
+func c06Siblings(k *fw.K) {
+	r := k.Rng
+	base := RandShape(r, 1, 3, 3)
+	dim := r.Intn(len(base))
+	part := func() *ref.T {
+		s := ref.CopyInts(base)
+		s[dim] = 1 + r.Intn(3)
+		return Shuffled(r, Unique(r, s, 0.1, 9))
+	}
+	type kept struct {
+		t    tensor.Tensor
+		want *ref.T
+		what string
+	}
+	var all []kept
+	build := func(what string, in ref.Instr, xs []tensor.Tensor, vs []*ref.T) (tensor.Tensor, *ref.T, bool) {
+		want, err := ref.Apply(in, vs)
+		if err != nil {
+			k.Failf("harness: %v", err)
+			return nil, nil, false
+		}
+		y, err, p := exec(in, xs)
+		if p != nil || err != nil || y == nil {
+			k.Failf("%s: panic=%v err=%v", what, p, err)
+			return nil, nil, false
+		}
+		all = append(all, kept{y, want, what})
+		return y, want, true
+	}
+	a, b := part(), part()
+	ta, tb := rt.MustLeaf(a, false), rt.MustLeaf(b, false)
+	cat := ref.Instr{Op: "concat", Dim: dim}
+	P, pv, ok := build("P = Concat(a, b)", cat, []tensor.Tensor{ta, tb}, []*ref.T{a, b})
+	if !ok {
+		return
+	}
+	n := 2 + r.Intn(3)
+	for q := 0; q < n; q++ {
+		c := part()
+		tc := rt.MustLeaf(c, false)
+		switch r.Intn(4) {
+		case 0: // P behind
+			_, _, ok = build(fmt.Sprintf("sibling %d = Concat(c, P)", q), cat, []tensor.Tensor{tc, P}, []*ref.T{c, pv})
+		case 1: // a slice of P in front
+			sl := ref.Instr{Op: "slice", Index: []ref.Range{{From: 0, To: 0}}}
+			sp, sv, ok2 := build(fmt.Sprintf("sibling %d: Slice(P)", q), sl, []tensor.Tensor{P}, []*ref.T{pv})
+			if !ok2 {
+				return
+			}
+			_, _, ok = build(fmt.Sprintf("sibling %d = Concat(Slice(P), c)", q), cat, []tensor.Tensor{sp, tc}, []*ref.T{sv, c})
+		default: // P in front: the case in which a result could grow into P's spare room
+			_, _, ok = build(fmt.Sprintf("sibling %d = Concat(P, c)", q), cat, []tensor.Tensor{P, tc}, []*ref.T{pv, c})
+		}
+		if !ok {
+			return
+		}
+	}
+	k.Case = map[string]any{"family": "sibling results over one shared operand", "base": base, "dim": dim, "siblings": n}
+	k.Key("siblings/%s/%d/%d", shapeKey(base), dim, n)
+	k.Count("sibling_result_cases", 1)
+	for pass := 0; pass < 2; pass++ {
+		for _, e := range all {
+			if err := rt.Compare(e.t, e.want, 0, 0, nil, 0); err != nil {
+				k.Failf("%s, read after all %d results over the shared operand were built: %v", e.what, len(all), err)
+				return
+			}
+		}
+	}
+}
+
+// c06FirstReader: the operand of every consumer kind is a tensor straight out of Broadcast (or Reshape / Transpose / Concat) that
+// NOTHING has read yet - no At, Shape, reducer or other operation between its construction and this use.
+func c06FirstReader(k *fw.K) {
+	r := k.Rng
+	small := RandShape(r, 1, 2, 3)
+	x := Shuffled(r, Unique(r, small, 0.1, 9))
+	tx := rt.MustLeaf(x, false)
+	var fresh tensor.Tensor
+	var fv *ref.T
+	var mk ref.Instr
+	switch r.Intn(4) {
+	case 0, 1:
+		mk = ref.Instr{Op: "broadcast", Shape: append([]int{1 + r.Intn(3)}, small...)}
+	case 2:
+		mk = ref.Instr{Op: "reshape", Shape: []int{len(x.Data)}}
+	default:
+		mk = ref.Instr{Op: "unsqueeze", Dim: 0}
+	}
+	fv, err := ref.Apply(mk, []*ref.T{x})
+	if err != nil {
+		k.Failf("harness: %v", err)
+		return
+	}
+	var p any
+	if fresh, err, p = exec(mk, []tensor.Tensor{tx}); p != nil || err != nil || fresh == nil {
+		k.Failf("%s %v -> %v: panic=%v err=%v", mk.Op, small, mk.Shape, p, err)
+		return
+	}
+	rank := len(fv.Shape)
+	var in ref.Instr
+	xs, vs := []tensor.Tensor{fresh}, []*ref.T{fv}
+	switch q := r.Intn(9); {
+	case q == 0: // Patch SOURCE
+		dst := ref.CopyInts(fv.Shape)
+		for d := range dst {
+			dst[d] += r.Intn(2)
+		}
+		dv := Shuffled(r, Unique(r, dst, 20, 30))
+		in = ref.Instr{Op: "patch"}
+		xs, vs = []tensor.Tensor{rt.MustLeaf(dv, false), fresh}, []*ref.T{dv, fv}
+	case q == 1: // Patch TARGET
+		src := ref.CopyInts(fv.Shape)
+		src[0] = 1
+		sv := Shuffled(r, Unique(r, src, 20, 30))
+		in = ref.Instr{Op: "patch"}
+		xs, vs = []tensor.Tensor{fresh, rt.MustLeaf(sv, false)}, []*ref.T{fv, sv}
+	case q == 2:
+		in = ref.Instr{Op: "concat", Dim: r.Intn(rank)}
+		xs, vs = []tensor.Tensor{fresh, fresh}, []*ref.T{fv, fv}
+	case q == 3:
+		in = ref.Instr{Op: "slice", Index: []ref.Range{{From: 0, To: 1}}}
+	case q == 4 && rank >= 2:
+		in = ref.Instr{Op: "transpose"}
+	case q == 5:
+		in = ref.Instr{Op: "sumalong", Dim: r.Intn(rank)}
+	case q == 6:
+		in = ref.Instr{Op: "flatten", Dim: r.Intn(rank)}
+	case q == 7:
+		in = ref.Instr{Op: "add"}
+		xs, vs = []tensor.Tensor{fresh, fresh}, []*ref.T{fv, fv}
+	default:
+		in = ref.Instr{Op: "reshape", Shape: []int{len(fv.Data)}}
+	}
+	want, err := ref.Apply(in, vs)
+	if err != nil {
+		k.Failf("harness: %v", err)
+		return
+	}
+	k.Case = map[string]any{"family": "first reader", "made_by": mk.Op, "consumer": in.Op, "shape": fv.Shape}
+	k.Key("first-reader/%s/%s/%s", mk.Op, in.Op, shapeKey(fv.Shape))
+	k.Count("first_reader_cases", 1)
+	y, err, p := exec(in, xs)
+	if p != nil || err != nil || y == nil {
+		k.Failf("%s as the FIRST reader of a fresh %s result of shape %v: panic=%v err=%v", in.Op, mk.Op, fv.Shape, p, err)
+		return
+	}
+	if e := rt.Compare(y, want, 1e-12, 1e-12, nil, 0); e != nil {
+		k.Failf("%s as the first reader of a fresh %s result of shape %v: %v", in.Op, mk.Op, fv.Shape, e)
+		return
+	}
+	if e := rt.Compare(fresh, fv, 0, 0, nil, 0); e != nil {
+		k.Failf("the %s result of shape %v after its first reader (%s): %v", mk.Op, fv.Shape, in.Op, e)
+	}
+}
+
 func c06IndexReuse(k *fw.K) {
 	rank := 1 + k.Rng.Intn(3)
 	s1, s2 := make([]int, rank), make([]int, rank)
